@@ -161,6 +161,43 @@ def pick (cat : Category) (w : Where) (table : List (Str × Cls)) (name : Str) :
 def acceptsName (core : List Str) (plugins : List (Str × Str)) (name : Str) : Bool :=
   (alookup name (nameTable core plugins)).isSome
 
+/-! ### loading a plugin (`PluginEntry.load`): eager for reporters and backends, lazy for loaders -/
+
+inductive LoadErr | format | noModule | noAttr
+deriving DecidableEq, Repr
+
+/-- `module_name, obj_name = location.split(':')`: exactly one colon -/
+def splitLoc (loc : Str) : Option (Str × Str) :=
+  match splitOn ':' loc [] with
+  | [m, a] => some (m, a)
+  | _ => none
+
+/-- `mods`: the importable modules with their attributes.  Wrong shape: ValueError; module missing / attribute
+    missing: `Exception('Plugin …')` — all three are plain python exceptions for the caller -/
+def loadPlugin (mods : List (Str × List Str)) (loc : Str) : Except LoadErr Unit :=
+  match splitLoc loc with
+  | none => .error .format
+  | some (m, a) =>
+    match alookup m mods with
+    | none => .error .noModule
+    | some attrs => if a ∈ attrs then .ok () else .error .noAttr
+
+def allLoad (mods : List (Str × List Str)) (sect : List (Str × Str)) : Bool :=
+  sect.all fun kv => (loadPlugin mods kv.2).toBool
+
+/-- choosing by name with loading.  Reporters / backends: `plugins.to_dict()` imports EVERY entry of the section when
+    the command object is created (inside `run`'s `try`), before any name is looked at — one entry that does not load
+    ends every `doit run` in a traceback, exit code 3.  Loaders: `get_plugin(name)` imports only the named entry,
+    before the `try`. -/
+def pickLoaded (cat : Category) (w : Where) (core : List Str) (sect : List (Str × Str))
+    (mods : List (Str × List Str)) (name : Str) : Pick :=
+  match cat with
+  | .loader =>
+    match alookup name sect with
+    | some loc => if (loadPlugin mods loc).toBool then .cls (.plugin loc) else .escapes
+    | none => pick .loader w (nameTable core sect) name
+  | c => if allLoad mods sect then pick c w (nameTable core sect) name else .traceback3
+
 /-! ## (c) the same text in a config file and on the command line -/
 
 /-- a text written as the value of option `o` in a config section (INI: always text) with nothing else given -/
